@@ -1,2 +1,581 @@
 import Gene.Spec.FieldTest
-/-! C03 — field tests mean what the rule author wrote. (theorems below) -/
+import Gene.Props.C04
+/-! C03 — field tests (==, is, ~=, &=, @indirect) mean what the rule author wrote.
+
+    `C03_direct`: for every operator, every `value` token the grammar can produce, and every field value
+    (present with any `FieldValue`, or missing), compiling the token (`DirectMatch::from_str`'s literal
+    classification) and evaluating the match (`match_event`/`match_value`) gives exactly the table of the
+    property statement, read off the characters between the token's outer quotes. A token the statement
+    cannot interpret for the operator is exactly a compile error.
+    `C03_indirect`: `== @.other`. -/
+set_option linter.unusedSimpArgs false
+namespace Gene.Props.C03
+open Gene M
+
+/-- the shapes of the `value` token (match.pest: `value_dq | value_sq | "none" | "some" | "true" | "false"`) -/
+inductive IsValueTok : Str → Prop
+  | none : IsValueTok "none".toList
+  | some : IsValueTok "some".toList
+  | tt : IsValueTok "true".toList
+  | ff : IsValueTok "false".toList
+  | sq (body : Str) : IsValueTok ('\'' :: (body ++ ['\'']))
+  | dq (body : Str) : IsValueTok ('"' :: (body ++ ['"']))
+
+def resOfOpt : Option Bool → S.Res
+  | Option.some b => .ok b
+  | Option.none => .err
+
+def resOf : Except EvalErr Bool → S.Res
+  | .ok b => .ok b
+  | .error _ => .err
+
+/-- a field value whose numeric payload fits its Rust type -/
+def fvWf : FieldValue → Prop
+  | .num n => n.wf
+  | _ => True
+
+/-! ### numbers produced by `Number::parse` fit their types -/
+theorem parseDigits_le {max : Nat} {s : Str} {n : Nat} (h : parseDigits max s = Option.some n) : n ≤ max := by
+  unfold parseDigits at h
+  split at h
+  · cases h
+  · simp only at h
+    split at h
+    · cases h; assumption
+    · cases h
+
+theorem p63n : (2:Nat)^63 = 9223372036854775808 := by decide
+
+theorem numParse_wf (fp : Str → Option FVal) (s : Str) (n : Num) (h : numParse fp s = Option.some n) : n.wf := by
+  unfold numParse at h
+  split at h
+  · -- hex
+    cases hh : parseHexU64 (s.drop 2) with
+    | none => rw [hh] at h; cases h
+    | some v =>
+      rw [hh] at h; simp only [Option.map_some, Option.some.injEq] at h; subst h
+      unfold parseHexU64 at hh
+      split at hh
+      · cases hh
+      · cases hm : (hexBody (s.drop 2)).mapM hexVal with
+        | none => rw [hm] at hh; cases hh
+        | some ds =>
+          rw [hm] at hh
+          simp only at hh
+          split at hh
+          · cases hh; assumption
+          · cases hh
+  · split at h
+    · split at h
+      · cases hf : fp s with
+        | none => rw [hf] at h; cases h
+        | some v => rw [hf] at h; simp only [Option.map_some, Option.some.injEq] at h; subst h; trivial
+      · cases hi : parseI64 s with
+        | none => rw [hi] at h; cases h
+        | some v =>
+          rw [hi] at h; simp only [Option.map_some, Option.some.injEq] at h; subst h
+          have hr : -(2:Int)^63 ≤ v ∧ v < 2^63 := by
+            rw [C04.p63]
+            unfold parseI64 at hi
+            split at hi
+            · cases hd : parseDigits (2^63) _ with
+              | none => rw [hd] at hi; cases hi
+              | some m =>
+                rw [hd] at hi; simp only [Option.map_some, Option.some.injEq] at hi; subst hi
+                have := parseDigits_le hd; rw [p63n] at this
+                simp only [Int.ofNat_eq_natCast]; omega
+            · cases hd : parseDigits (2^63 - 1) _ with
+              | none => rw [hd] at hi; cases hi
+              | some m =>
+                rw [hd] at hi; simp only [Option.map_some, Option.some.injEq] at hi; subst hi
+                have := parseDigits_le hd; rw [p63n] at this
+                simp only [Int.ofNat_eq_natCast]; omega
+            · cases hd : parseDigits (2^63 - 1) _ with
+              | none => rw [hd] at hi; cases hi
+              | some m =>
+                rw [hd] at hi; simp only [Option.map_some, Option.some.injEq] at hi; subst hi
+                have := parseDigits_le hd; rw [p63n] at this
+                simp only [Int.ofNat_eq_natCast]; omega
+          unfold fromI64
+          split
+          · exact hr
+          · show v.toNat < 2^64
+            rw [C04.p64n]; rw [C04.p63] at hr; omega
+    · split at h
+      · cases hf : fp s with
+        | none => rw [hf] at h; cases h
+        | some v => rw [hf] at h; simp only [Option.map_some, Option.some.injEq] at h; subst h; trivial
+      · cases hu : parseU64 s with
+        | none => rw [hu] at h; cases h
+        | some v =>
+          rw [hu] at h; simp only [Option.map_some, Option.some.injEq] at h; subst h
+          show v < 2^64
+          rw [C04.p64n]
+          unfold parseU64 at hu
+          split at hu <;> (have := parseDigits_le hu; omega)
+
+/-! ### the bit test -/
+theorem land_eq_iff (a b : Nat) (ha : a < 2^64) :
+    ((a &&& b) == a) = (List.range 64).all (fun i => !a.testBit i || b.testBit i) := by
+  rw [Bool.eq_iff_iff]
+  simp only [beq_iff_eq, List.all_eq_true, List.mem_range, Bool.or_eq_true, Bool.not_eq_true']
+  constructor
+  · intro h i _
+    have : (a &&& b).testBit i = a.testBit i := by rw [h]
+    rw [Nat.testBit_and] at this
+    cases hai : a.testBit i
+    · left; rfl
+    · right; rw [hai] at this; simpa using this
+  · intro h
+    apply Nat.eq_of_testBit_eq
+    intro i
+    rw [Nat.testBit_and]
+    by_cases hi : i < 64
+    · rcases h i hi with h1 | h1
+      · simp [h1]
+      · simp [h1]
+    · have : a < 2^i := Nat.lt_of_lt_of_le ha (Nat.pow_le_pow_right (by decide) (by omega))
+      simp [Nat.testBit_lt_two_pow this]
+
+theorem asBits_spec (n : Num) (hn : n.wf) :
+    asBits n = (S.intOf n).map S.pattern ∧ ∀ v, asBits n = Option.some v → v < 2^64 := by
+  cases n with
+  | int v =>
+    refine ⟨rfl, ?_⟩
+    intro w hw
+    simp only [asBits, Option.some.injEq] at hw
+    subst hw
+    have hpos : (0:Int) < 2^64 := by rw [C04.p64]; decide
+    have h1 := Int.emod_lt_of_pos v hpos
+    have h2 := Int.emod_nonneg v (Int.ne_of_gt hpos)
+    rw [C04.p64n]; rw [C04.p64] at h1 h2 ⊢; omega
+  | uint v =>
+    have hv : v < 2^64 := hn
+    refine ⟨?_, ?_⟩
+    · simp only [asBits, S.intOf, Option.map_some, S.pattern, Option.some.injEq]
+      have : ((v : Int) % 2^64) = v := by
+        rw [C04.p64]; rw [C04.p64n] at hv; omega
+      rw [this]; simp
+    · intro w hw; simp only [asBits, Option.some.injEq] at hw; subst hw; exact hv
+  | float x => exact ⟨rfl, by intro v h; cases h⟩
+
+theorem flag_spec (a b : Num) (ha : a.wf) (hb : b.wf) : resOfOpt (flagTest a b) = S.bitTest a b := by
+  have sa := asBits_spec a ha
+  have sb := asBits_spec b hb
+  unfold flagTest S.bitTest
+  rw [sa.1, sb.1]
+  cases hia : S.intOf a with
+  | none => simp [resOfOpt]
+  | some x =>
+    cases hib : S.intOf b with
+    | none => simp [resOfOpt]
+    | some y =>
+      simp only [Option.map_some, resOfOpt]
+      have hlt : S.pattern x < 2^64 := sa.2 _ (by rw [sa.1, hia]; rfl)
+      rw [land_eq_iff _ _ hlt]
+      rfl
+
+/-! ### reading the token -/
+theorem strip_concat (body : Str) (q : Char) : stripSuffixChar (body ++ [q]) q = Option.some body := by
+  unfold stripSuffixChar
+  simp
+
+theorem sanitize_sq (body : Str) : sanitize ('\'' :: (body ++ ['\''])) = body := by
+  simp only [sanitize, strip_concat]
+theorem sanitize_dq (body : Str) : sanitize ('"' :: (body ++ ['"'])) = body := by
+  simp only [sanitize, strip_concat]
+
+theorem literal_sq (body : Str) : S.literal ('\'' :: (body ++ ['\''])) = .text body := by
+  unfold S.literal
+  have h1 : ('\'' :: (body ++ ['\'']) == "none".toList) = false := by
+    show (('\'' :: (body ++ ['\''])) == ('n' :: _)) = false
+    simp
+  have h2 : ('\'' :: (body ++ ['\'']) == "some".toList) = false := by
+    show (('\'' :: (body ++ ['\''])) == ('s' :: _)) = false
+    simp
+  have h3 : ('\'' :: (body ++ ['\'']) == "true".toList) = false := by
+    show (('\'' :: (body ++ ['\''])) == ('t' :: _)) = false
+    simp
+  have h4 : ('\'' :: (body ++ ['\'']) == "false".toList) = false := by
+    show (('\'' :: (body ++ ['\''])) == ('f' :: _)) = false
+    simp
+  simp only [h1, h2, h3, h4, Bool.false_eq_true, if_false, List.drop_succ_cons, List.drop_zero,
+    List.dropLast_concat]
+
+theorem literal_dq (body : Str) : S.literal ('"' :: (body ++ ['"'])) = .text body := by
+  unfold S.literal
+  have h1 : ('"' :: (body ++ ['"']) == "none".toList) = false := by
+    show (('"' :: (body ++ ['"'])) == ('n' :: _)) = false
+    simp
+  have h2 : ('"' :: (body ++ ['"']) == "some".toList) = false := by
+    show (('"' :: (body ++ ['"'])) == ('s' :: _)) = false
+    simp
+  have h3 : ('"' :: (body ++ ['"']) == "true".toList) = false := by
+    show (('"' :: (body ++ ['"'])) == ('t' :: _)) = false
+    simp
+  have h4 : ('"' :: (body ++ ['"']) == "false".toList) = false := by
+    show (('"' :: (body ++ ['"'])) == ('f' :: _)) = false
+    simp
+  simp only [h1, h2, h3, h4, Bool.false_eq_true, if_false, List.drop_succ_cons, List.drop_zero,
+    List.dropLast_concat]
+
+/-- the four token tests of `classify` on a quoted token -/
+theorem quoted_not_kw (q : Char) (body : Str) (hq : q = '\'' ∨ q = '"') :
+    ((q :: (body ++ [q])) == "none".toList) = false ∧ ((q :: (body ++ [q])) == "some".toList) = false ∧
+    ((q :: (body ++ [q])) == "true".toList) = false ∧ ((q :: (body ++ [q])) == "false".toList) = false := by
+  rcases hq with rfl | rfl
+  · refine ⟨?_, ?_, ?_, ?_⟩
+    · show (('\'' :: _) == ('n' :: _)) = false; simp
+    · show (('\'' :: _) == ('s' :: _)) = false; simp
+    · show (('\'' :: _) == ('t' :: _)) = false; simp
+    · show (('\'' :: _) == ('f' :: _)) = false; simp
+  · refine ⟨?_, ?_, ?_, ?_⟩
+    · show (('"' :: _) == ('n' :: _)) = false; simp
+    · show (('"' :: _) == ('s' :: _)) = false; simp
+    · show (('"' :: _) == ('t' :: _)) = false; simp
+    · show (('"' :: _) == ('f' :: _)) = false; simp
+
+/-- a keyword is not a number -/
+theorem kw_not_num (fp : Str → Option FVal) :
+    numParse fp "none".toList = Option.none ∧ numParse fp "some".toList = Option.none ∧
+    numParse fp "true".toList = Option.none ∧ numParse fp "false".toList = Option.none := by
+  refine ⟨rfl, rfl, rfl, rfl⟩
+
+
+/-! ### `classify` in closed form -/
+/-- what `DirectMatch::from_str` builds from a quoted token with content `body` -/
+def quotedValue (x : Ext) (op : MOp) (body : Str) : Option MatchValue :=
+  match op with
+  | .eq => match numParse x.fparse body with
+    | Option.some n => Option.some (.strOrNum body n)
+    | Option.none => Option.some (.str body)
+  | .rex => if x.rxOk body then Option.some (.regex body) else Option.none
+  | _ => (numParse x.fparse body).map MatchValue.num
+
+theorem classify_quoted (x : Ext) (op : MOp) (q : Char) (body : Str) (hq : q = '\'' ∨ q = '"') :
+    classify x op (q :: (body ++ [q])) = quotedValue x op body := by
+  obtain ⟨k1, k2, k3, k4⟩ := quoted_not_kw q body hq
+  have hs : sanitize (q :: (body ++ [q])) = body := by
+    rcases hq with rfl | rfl
+    · exact sanitize_sq body
+    · exact sanitize_dq body
+  unfold classify quotedValue
+  simp only [hs, k1, k2, k3, k4, Bool.false_eq_true, if_false]
+  cases op <;> rfl
+
+/-- what it builds from a bare keyword -/
+def kwValue (x : Ext) (op : MOp) (kw : Str) (v : MatchValue) : Option MatchValue :=
+  match op with
+  | .eq => Option.some v
+  | .rex => if x.rxOk kw then Option.some (.regex kw) else Option.none
+  | _ => Option.none
+
+theorem classify_kw (x : Ext) (op : MOp) :
+    classify x op "none".toList = kwValue x op "none".toList .none ∧
+    classify x op "some".toList = kwValue x op "some".toList .some ∧
+    classify x op "true".toList = kwValue x op "true".toList (.bool true) ∧
+    classify x op "false".toList = kwValue x op "false".toList (.bool false) := by
+  obtain ⟨n1, n2, n3, n4⟩ := kw_not_num x.fparse
+  have s1 : sanitize "none".toList = "none".toList := rfl
+  have s2 : sanitize "some".toList = "some".toList := rfl
+  have s3 : sanitize "true".toList = "true".toList := rfl
+  have s4 : sanitize "false".toList = "false".toList := rfl
+  refine ⟨?_, ?_, ?_, ?_⟩ <;> cases op <;>
+    simp only [classify, kwValue, s1, s2, s3, s4, n1, n2, n3, n4, Option.map_none] <;> rfl
+
+/-- Stage A: a token is rejected at compile time exactly when the statement cannot interpret it -/
+theorem classify_isSome (x : Ext) (op : MOp) (tok : Str) (h : IsValueTok tok) :
+    (classify x op tok).isSome = S.litOk x op (S.literal tok) := by
+  obtain ⟨c1, c2, c3, c4⟩ := classify_kw x op
+  cases h with
+  | none => rw [c1]; cases op <;> simp [kwValue, S.litOk, S.literal] <;> (try split) <;> simp_all
+  | some => rw [c2]; cases op <;> simp [kwValue, S.litOk, S.literal] <;> (try split) <;> simp_all
+  | tt => rw [c3]; cases op <;> simp [kwValue, S.litOk, S.literal] <;> (try split) <;> simp_all
+  | ff => rw [c4]; cases op <;> simp [kwValue, S.litOk, S.literal] <;> (try split) <;> simp_all
+  | sq body =>
+    rw [classify_quoted x op '\'' body (Or.inl rfl), literal_sq]
+    cases op <;> simp only [quotedValue, S.litOk] <;>
+      first
+        | (cases numParse x.fparse body <;> rfl)
+        | (cases x.rxOk body <;> rfl)
+  | dq body =>
+    rw [classify_quoted x op '"' body (Or.inr rfl), literal_dq]
+    cases op <;> simp only [quotedValue, S.litOk] <;>
+      first
+        | (cases numParse x.fparse body <;> rfl)
+        | (cases x.rxOk body <;> rfl)
+
+
+/-! ### Stage B: evaluation against a present value -/
+theorem ops_eq {a b : Num} (ha : a.wf) (hb : b.wf) :
+    numEq a b = S.numEq a b ∧ numLt a b = S.numLt a b ∧ numLe a b = S.numLe a b ∧
+    numGt a b = S.numGt a b ∧ numGe a b = S.numGe a b := C04.C04_ops a b ha hb
+
+theorem matchValue_quoted (x : Ext) (op : MOp) (body : Str) (v : MatchValue)
+    (hc : quotedValue x op body = Option.some v) (fv : FieldValue) (hfv : fvWf fv) :
+    resOfOpt (matchValue x op v fv) = S.fieldTest x op (.text body) (Option.some fv) := by
+  cases op with
+  | eq =>
+    simp only [quotedValue] at hc
+    cases hn : numParse x.fparse body with
+    | none =>
+      rw [hn] at hc; simp only [Option.some.injEq] at hc; subst hc
+      cases fv <;> simp [matchValue, S.fieldTest, resOfOpt, hn]
+    | some n =>
+      rw [hn] at hc; simp only [Option.some.injEq] at hc; subst hc
+      have hnw := numParse_wf _ _ _ hn
+      cases fv with
+      | num m =>
+        have := (ops_eq (a := m) (b := n) hfv hnw).1
+        simp [matchValue, S.fieldTest, resOfOpt, hn, this]
+      | _ => simp [matchValue, S.fieldTest, resOfOpt, hn]
+  | rex =>
+    simp only [quotedValue] at hc
+    split at hc
+    · simp only [Option.some.injEq] at hc; subst hc
+      cases fv <;> simp [matchValue, S.fieldTest, resOfOpt, S.litText]
+    · cases hc
+  | flag =>
+    simp only [quotedValue] at hc
+    cases hn : numParse x.fparse body with
+    | none => rw [hn] at hc; cases hc
+    | some n =>
+      rw [hn] at hc; simp only [Option.map_some, Option.some.injEq] at hc; subst hc
+      have hnw := numParse_wf _ _ _ hn
+      cases fv with
+      | num m =>
+        have := flag_spec n m hnw hfv
+        simp only [matchValue, S.fieldTest, S.fieldNum, S.litText, hn]
+        exact this
+      | str s =>
+        simp only [matchValue, S.fieldTest, S.fieldNum, S.litText, hn]
+        cases hs : numParse x.fparse s with
+        | none => simp [resOfOpt]
+        | some m =>
+          have hmw := numParse_wf _ _ _ hs
+          have := flag_spec n m hnw hmw
+          simp only [Option.map_some]
+          exact this
+      | _ => simp [matchValue, S.fieldTest, S.fieldNum, S.litText, resOfOpt, hn]
+  | lt =>
+    simp only [quotedValue] at hc
+    cases hn : numParse x.fparse body with
+    | none => rw [hn] at hc; cases hc
+    | some n =>
+      rw [hn] at hc; simp only [Option.map_some, Option.some.injEq] at hc; subst hc
+      have hnw := numParse_wf _ _ _ hn
+      cases fv with
+      | num m =>
+        have := (ops_eq (a := m) (b := n) hfv hnw)
+        simp [matchValue, S.fieldTest, S.ordTest, S.fieldNum, S.litText, resOfOpt, hn, this]
+      | str s =>
+        simp only [matchValue, S.fieldTest, S.ordTest, S.fieldNum, S.litText, hn]
+        cases hs : numParse x.fparse s with
+        | none => simp [resOfOpt]
+        | some m =>
+          have := (ops_eq (a := m) (b := n) (numParse_wf _ _ _ hs) hnw)
+          simp [resOfOpt, this]
+      | _ => simp [matchValue, S.fieldTest, S.ordTest, S.fieldNum, S.litText, resOfOpt, hn]
+  | lte =>
+    simp only [quotedValue] at hc
+    cases hn : numParse x.fparse body with
+    | none => rw [hn] at hc; cases hc
+    | some n =>
+      rw [hn] at hc; simp only [Option.map_some, Option.some.injEq] at hc; subst hc
+      have hnw := numParse_wf _ _ _ hn
+      cases fv with
+      | num m =>
+        have := (ops_eq (a := m) (b := n) hfv hnw)
+        simp [matchValue, S.fieldTest, S.ordTest, S.fieldNum, S.litText, resOfOpt, hn, this]
+      | str s =>
+        simp only [matchValue, S.fieldTest, S.ordTest, S.fieldNum, S.litText, hn]
+        cases hs : numParse x.fparse s with
+        | none => simp [resOfOpt]
+        | some m =>
+          have := (ops_eq (a := m) (b := n) (numParse_wf _ _ _ hs) hnw)
+          simp [resOfOpt, this]
+      | _ => simp [matchValue, S.fieldTest, S.ordTest, S.fieldNum, S.litText, resOfOpt, hn]
+  | gt =>
+    simp only [quotedValue] at hc
+    cases hn : numParse x.fparse body with
+    | none => rw [hn] at hc; cases hc
+    | some n =>
+      rw [hn] at hc; simp only [Option.map_some, Option.some.injEq] at hc; subst hc
+      have hnw := numParse_wf _ _ _ hn
+      cases fv with
+      | num m =>
+        have := (ops_eq (a := m) (b := n) hfv hnw)
+        simp [matchValue, S.fieldTest, S.ordTest, S.fieldNum, S.litText, resOfOpt, hn, this]
+      | str s =>
+        simp only [matchValue, S.fieldTest, S.ordTest, S.fieldNum, S.litText, hn]
+        cases hs : numParse x.fparse s with
+        | none => simp [resOfOpt]
+        | some m =>
+          have := (ops_eq (a := m) (b := n) (numParse_wf _ _ _ hs) hnw)
+          simp [resOfOpt, this]
+      | _ => simp [matchValue, S.fieldTest, S.ordTest, S.fieldNum, S.litText, resOfOpt, hn]
+  | gte =>
+    simp only [quotedValue] at hc
+    cases hn : numParse x.fparse body with
+    | none => rw [hn] at hc; cases hc
+    | some n =>
+      rw [hn] at hc; simp only [Option.map_some, Option.some.injEq] at hc; subst hc
+      have hnw := numParse_wf _ _ _ hn
+      cases fv with
+      | num m =>
+        have := (ops_eq (a := m) (b := n) hfv hnw)
+        simp [matchValue, S.fieldTest, S.ordTest, S.fieldNum, S.litText, resOfOpt, hn, this]
+      | str s =>
+        simp only [matchValue, S.fieldTest, S.ordTest, S.fieldNum, S.litText, hn]
+        cases hs : numParse x.fparse s with
+        | none => simp [resOfOpt]
+        | some m =>
+          have := (ops_eq (a := m) (b := n) (numParse_wf _ _ _ hs) hnw)
+          simp [resOfOpt, this]
+      | _ => simp [matchValue, S.fieldTest, S.ordTest, S.fieldNum, S.litText, resOfOpt, hn]
+
+
+theorem matchValue_kw (x : Ext) (op : MOp) (kw : Str) (kv : MatchValue) (l : S.Lit) (v : MatchValue)
+    (hk : (kv = .none ∧ l = .none ∧ kw = "none".toList) ∨ (kv = .some ∧ l = .some ∧ kw = "some".toList) ∨
+          (kv = .bool true ∧ l = .bool true ∧ kw = "true".toList) ∨
+          (kv = .bool false ∧ l = .bool false ∧ kw = "false".toList))
+    (hc : kwValue x op kw kv = Option.some v) (fv : FieldValue) :
+    resOfOpt (matchValue x op v fv) = S.fieldTest x op l (Option.some fv) := by
+  cases op with
+  | eq =>
+    simp only [kwValue, Option.some.injEq] at hc; subst hc
+    rcases hk with ⟨rfl, rfl, _⟩ | ⟨rfl, rfl, _⟩ | ⟨rfl, rfl, _⟩ | ⟨rfl, rfl, _⟩ <;>
+      cases fv <;> simp [matchValue, S.fieldTest, resOfOpt]
+  | rex =>
+    simp only [kwValue] at hc
+    split at hc
+    · simp only [Option.some.injEq] at hc; subst hc
+      rcases hk with ⟨_, rfl, rfl⟩ | ⟨_, rfl, rfl⟩ | ⟨_, rfl, rfl⟩ | ⟨_, rfl, rfl⟩ <;>
+        cases fv <;> simp [matchValue, S.fieldTest, resOfOpt, S.litText]
+    · cases hc
+  | lt => simp [kwValue] at hc
+  | lte => simp [kwValue] at hc
+  | gt => simp [kwValue] at hc
+  | gte => simp [kwValue] at hc
+  | flag => simp [kwValue] at hc
+
+/-- Stage B for every token -/
+theorem matchValue_spec (x : Ext) (op : MOp) (tok : Str) (h : IsValueTok tok) (v : MatchValue)
+    (hc : classify x op tok = Option.some v) (fv : FieldValue) (hfv : fvWf fv) :
+    resOfOpt (matchValue x op v fv) = S.fieldTest x op (S.literal tok) (Option.some fv) := by
+  obtain ⟨c1, c2, c3, c4⟩ := classify_kw x op
+  cases h with
+  | none =>
+    rw [c1] at hc
+    exact matchValue_kw x op _ .none .none v (Or.inl ⟨rfl, rfl, rfl⟩) hc fv
+  | some =>
+    rw [c2] at hc
+    exact matchValue_kw x op _ .some .some v (Or.inr (Or.inl ⟨rfl, rfl, rfl⟩)) hc fv
+  | tt =>
+    rw [c3] at hc
+    exact matchValue_kw x op _ (.bool true) (.bool true) v (Or.inr (Or.inr (Or.inl ⟨rfl, rfl, rfl⟩))) hc fv
+  | ff =>
+    rw [c4] at hc
+    exact matchValue_kw x op _ (.bool false) (.bool false) v (Or.inr (Or.inr (Or.inr ⟨rfl, rfl, rfl⟩))) hc fv
+  | sq body =>
+    rw [classify_quoted x op '\'' body (Or.inl rfl)] at hc
+    rw [literal_sq]
+    exact matchValue_quoted x op body v hc fv hfv
+  | dq body =>
+    rw [classify_quoted x op '"' body (Or.inr rfl)] at hc
+    rw [literal_dq]
+    exact matchValue_quoted x op body v hc fv hfv
+
+/-- every number an event can hand out fits its Rust type (true of any `FieldValue`) -/
+def EventWf (ev : Event) : Prop := ∀ segs fv, ev.get segs = Option.some fv → fvWf fv
+
+/-- **C03 (direct tests).** For every operator, every `value` token, every path and every event:
+    (1) the token compiles iff the statement can interpret it for that operator, and
+    (2) when it does, evaluating the compiled test on the event yields exactly the statement's table —
+        in particular an error, never a match, for a missing field or a value of the wrong kind. -/
+theorem C03_direct (x : Ext) (op : MOp) (tok : Str) (h : IsValueTok tok) :
+    (classify x op tok).isSome = S.litOk x op (S.literal tok) ∧
+    ∀ v, classify x op tok = Option.some v →
+      ∀ (ev : Event) (p : XPath) (states : List (Str × Bool)), EventWf ev →
+        resOf (matchEvent x ev states (.direct p op v)) =
+          S.fieldTest x op (S.literal tok) (ev.get p.segments) := by
+  refine ⟨classify_isSome x op tok h, ?_⟩
+  intro v hc ev p states hwf
+  cases hg : ev.get p.segments with
+  | none => simp only [matchEvent, hg, resOf, S.fieldTest]
+  | some fv =>
+    have := matchValue_spec x op tok h v hc fv (hwf _ _ hg)
+    rw [← this]
+    simp only [matchEvent, hg]
+    cases matchValue x op v fv <;> rfl
+
+/-- **C03 (indirect tests).** `.a == @.b` holds exactly when both fields are present and carry equal
+    values; a missing field is an error. -/
+theorem C03_indirect (x : Ext) (ev : Event) (p q : XPath) (states : List (Str × Bool)) (hwf : EventWf ev) :
+    resOf (matchEvent x ev states (.indirect p q)) = S.indirectTest (ev.get p.segments) (ev.get q.segments) := by
+  cases ha : ev.get p.segments with
+  | none => simp only [matchEvent, ha, resOf, S.indirectTest]
+  | some a =>
+    cases hb : ev.get q.segments with
+    | none => simp only [matchEvent, ha, hb, resOf, S.indirectTest]
+    | some b =>
+      simp only [matchEvent, ha, hb, resOf, S.indirectTest]
+      have wa := hwf _ _ ha
+      have wb := hwf _ _ hb
+      cases a <;> cases b <;> simp only [fvEq, S.fvEqual]
+      rename_i m n
+      rw [(ops_eq (a := m) (b := n) wa wb).1]
+
+/-- `is none` and `is some` are complementary on every present value -/
+theorem C03_none_some_complementary (x : Ext) (fv : FieldValue) :
+    S.fieldTest x .eq .none (Option.some fv) = .ok (fv == FieldValue.none) ∧
+    S.fieldTest x .eq .some (Option.some fv) = .ok (!(fv == FieldValue.none)) := by
+  constructor
+  · simp [S.fieldTest]
+  · simp only [S.fieldTest]; rfl
+
+/-- a missing field is an error for every operator and literal — never a match -/
+theorem C03_missing (x : Ext) (op : MOp) (l : S.Lit) : S.fieldTest x op l Option.none = .err := rfl
+
+/-- the token `direct_match` hands to the classification is one of the six shapes -/
+theorem valueTok_shape (s tok r : Str) (h : valueTok s = Option.some (tok, r)) : IsValueTok tok := by
+  unfold valueTok at h
+  split at h
+  · split at h
+    · simp only [Option.some.injEq, Prod.mk.injEq] at h; obtain ⟨rfl, _⟩ := h; exact IsValueTok.dq _
+    · cases h
+  · split at h
+    · simp only [Option.some.injEq, Prod.mk.injEq] at h; obtain ⟨rfl, _⟩ := h; exact IsValueTok.sq _
+    · cases h
+  · split at h
+    · simp only [Option.some.injEq, Prod.mk.injEq] at h; obtain ⟨rfl, _⟩ := h; exact IsValueTok.none
+    · split at h
+      · simp only [Option.some.injEq, Prod.mk.injEq] at h; obtain ⟨rfl, _⟩ := h; exact IsValueTok.some
+      · split at h
+        · simp only [Option.some.injEq, Prod.mk.injEq] at h; obtain ⟨rfl, _⟩ := h; exact IsValueTok.tt
+        · split at h
+          · simp only [Option.some.injEq, Prod.mk.injEq] at h; obtain ⟨rfl, _⟩ := h; exact IsValueTok.ff
+          · cases h
+
+theorem parseDirect_token (s : Str) (gs : List Seg) (op : MOp) (tok : Str)
+    (h : parseDirect s = Option.some (gs, op, tok)) : IsValueTok tok := by
+  unfold parseDirect at h
+  simp only at h
+  split at h
+  · cases h
+  · split at h
+    · cases h
+    · split at h
+      · cases h
+      · rename_i tok' r' hv
+        split at h
+        · simp only [Option.some.injEq, Prod.mk.injEq] at h
+          obtain ⟨_, _, rfl⟩ := h
+          exact valueTok_shape _ _ _ hv
+        · cases h
+
+-- non-vacuity: text that itself starts / ends with the other quote character
+example : S.literal "'\"a\"'".toList = .text "\"a\"".toList := by decide
+example : IsValueTok "'\"a\"'".toList := IsValueTok.sq "\"a\"".toList
+
+end Gene.Props.C03
